@@ -181,6 +181,11 @@ func cmdVerify(args []string) {
 			}
 		}
 	}
+	if *verbose {
+		for _, a := range sortedKeys(w.assumed) {
+			fmt.Printf("   assumed %s\n", a)
+		}
+	}
 	fmt.Printf("total %.1fs\n", time.Since(t0).Seconds())
 	if bad > 0 {
 		os.Exit(1)
